@@ -4,6 +4,7 @@ import (
 	"context"
 	"errors"
 	"fmt"
+	"grog/internal/verifhook"
 	"os"
 	"strings"
 	"time"
@@ -140,6 +141,7 @@ func RunBuild(
 		}()
 	}
 
+	verifhook.Event("build.locked")
 	executor := execution.NewExecutor(
 		targetCache,
 		taintCache,
